@@ -94,8 +94,9 @@ def run_blob(case):
     fmt = case.get("fmt", ".bin")
     st_ = None
     try:
-        st_ = stack.Stack([session.SIMPLE_SPEC], case.get("frags"))
+        st_ = stack.Stack([session.SIMPLE_SPEC, session.SECOND_SPEC], case.get("frags"))
         drv = st_.dep.drivers[0]
+        drv2 = st_.dep.drivers[1]
         client = st_.client
         observers = []
         for o in case.get("observers", []):
@@ -185,6 +186,31 @@ def run_blob(case):
                         raise Failure("raw:payload-differs", f"{where}: size={one.get('size')} format={one.get('format')!r}")
                 if wants_text != (f"sentinel-{n}" in raw):
                     raise Failure(f"raw:{pol}:sentinel", f"{where}: sentinel present={f'sentinel-{n}' in raw}, expected {wants_text}")
+        # the sibling BLOB element of the same property stays unset everywhere
+        sib = client["DEV"]["BLB"]["B"].value
+        if sib is not None and not isinstance(sib, str) and len(sib.binary):
+            raise Failure("sibling-blob-element-polluted", f"{where}: BLB.B holds {len(sib.binary)} bytes on the client, the driver never set it")
+        # ---- a second device: policies are per device -------------------------------------------
+        data2 = payload(min(n, 300) + 5, 99)
+        for o, ob in observers:
+            if o["type"] == "raw":
+                ob.new_output()
+        st_.in_loop(lambda: setattr(drv2.g.bl.a, "value", values.BLOB(data2, ".dev2")))
+        got2 = client["DEV2"]["BLB"]["A"].value
+        if got2 is None or isinstance(got2, str) or got2.binary != data2 or got2.format != ".dev2":
+            raise Failure("second-device:blob-connection:payload-differs", f"{where}: the Client did not receive DEV2's BLOB ({None if got2 is None or isinstance(got2, str) else len(got2.binary)} bytes)")
+        got1 = client["DEV"]["BLB"]["A"].value
+        got1_bytes = b"" if (got1 is None or isinstance(got1, str)) else got1.binary
+        if got1_bytes != want_bytes:
+            raise Failure("second-device:first-device-blob-changed", f"{where}: DEV's BLOB on the client changed when DEV2 published")
+        for o, ob in observers:  # these observers only ever set a policy for DEV
+            if o["type"] == "single":
+                c = ob.client
+                v2 = c["DEV2"]["BLB"]["A"].value if ("DEV2" in c and "BLB" in c["DEV2"]) else None
+                if v2 is not None and not isinstance(v2, str) and len(v2.binary):
+                    raise Failure(f"second-device:policy-leaked:{o['policy']}", f"{where}: observer with a policy for DEV only received DEV2's BLOB")
+            elif "<setBLOBVector" in ob.new_output():
+                raise Failure(f"second-device:policy-leaked:{o['policy']}", f"{where}: raw peer with a policy for DEV only received DEV2's setBLOBVector")
         msg_len = el_len + 23
         return (len(data) > 0 and msg_len > 1024) or any(o["policy"] is not None for o, _ in observers)
     finally:
